@@ -6,6 +6,9 @@
    entry names a blob only at the canonical path of its hash; no hypothesis on names is needed. *)
 From Cas Require Import History.
 From CasProofs Require Import BaseProofs StoreFS StoreInv StoreHist OrphanProofs.
+From Cas Require Conc.
+From CasProofs Require ConcInv ConcProofs IndexProofs.
+From CasProps Require ConcSetting.
 
 Theorem C08_scan_exact :
   forall H : bytes -> bytes,
@@ -46,6 +49,23 @@ Theorem C08_cleanup_rechecks_the_live_index :
     referenced m' h = true -> delete_orphan m' (scan_orphans H m s verify) h w = (Ok false, w).
 Proof. exact OrphanProofs.delete_orphan_rechecks. Qed.
 Print Assumptions C08_cleanup_rechecks_the_live_index.
+
+
+(* the race with concurrent commits (concurrent model; KDelOrphans = delete_orphans over the scanned
+   list, one lock-protected re-check per hash): NO step of any thread - an orphan deletion included -
+   removes a blob that a key references or that an in-flight commit protects, in every reachable
+   state, for every schedule *)
+Theorem C08_cleanup_racing_with_commits_never_harms :
+  forall H cmp nops bad ckbad thr0 cas0, CasProps.ConcSetting.ConcSetting H cmp thr0 cas0 ->
+  forall g t g', CasProofs.ConcInv.reachable H cmp nops bad ckbad thr0 cas0 g ->
+                 Cas.Conc.cstep H cmp nops bad ckbad g t = Some g' ->
+  forall h, sm_get lex_cmp (Cas.Conc.g_cas g) h <> None -> sm_get lex_cmp (Cas.Conc.g_cas g') h = None ->
+    IndexProofs.count_refs (km (Cas.Conc.g_idx g)) h = 0%N /\ sm_get lex_cmp (Cas.Conc.g_byhash g) h = None.
+Proof.
+  intros H cmp nops bad ckbad thr0 cas0 (A & B & C & D & E & F & G & I).
+  exact (CasProofs.ConcProofs.C04_never_deletes_protected H cmp A B C D nops bad ckbad thr0 E cas0 F G I).
+Qed.
+Print Assumptions C08_cleanup_racing_with_commits_never_harms.
 
 Example C08_nonvacuous_scan := OrphanProofs.N4_scan.
 Example C08_nonvacuous_cleanup := OrphanProofs.N4_cleanup.
